@@ -1,0 +1,49 @@
+//go:build verif
+
+package vgirpc
+
+import (
+	"net/http"
+	"net/http/httptest"
+	"time"
+)
+
+// Verification hooks for property C13, session TEARDOWN route
+// (DELETE {prefix}/__session__). Add-only; compiled only with -tags verif.
+
+// OpenSessionWith is OpenSession with a caller-supplied state object, so the
+// harness can observe whether the state's Close ran.
+func (s *VerifC13Server) OpenSessionWith(a *AuthContext, state any) (string, error) {
+	if s.H.stickyRegistry == nil {
+		s.H.EnableSticky(time.Minute)
+	}
+	sink := verifC13StickySink(s.H.stickyRegistry, s.H.tokenKey, s.H.server.serverID, a)
+	if err := (&CallContext{stickySink: sink}).OpenSession(state, 0); err != nil {
+		return "", err
+	}
+	return sink.mintedToken, nil
+}
+
+// Teardown calls the real handleStickyDelete handler directly (no mux, no
+// ServeHTTP envelope) with request r, which must carry whatever the server's
+// AuthenticateFunc reads plus the VGI-Session header. Returns the status and
+// whether VGI-Session-Close was set.
+func (s *VerifC13Server) Teardown(r *http.Request) (status int, closeHeader bool) {
+	if s.H.stickyRegistry == nil {
+		s.H.EnableSticky(time.Minute)
+	}
+	w := httptest.NewRecorder()
+	s.H.handleStickyDelete(w, r)
+	return w.Code, w.Header().Get(stickySessionCloseHeader) != ""
+}
+
+// VerifC13LiveSessions is the number of entries in the sticky registry.
+func (s *VerifC13Server) VerifC13LiveSessions() int {
+	reg := s.H.stickyRegistry
+	if reg == nil {
+		return 0
+	}
+	reg.mu.Lock()
+	defer reg.mu.Unlock()
+	return len(reg.entries)
+}
